@@ -1,5 +1,5 @@
 (* Ctlog/Theorems2.v — consequences of the second invariant layer (C02, C07, C03/C04 parts) *)
-From SL Require Import Base.BytesProofs Ctlog.Model Ctlog.Spec Ctlog.Inv Ctlog.InvStep Ctlog.Inv2 Ctlog.Inv2Step Ctlog.Mono.
+From SL Require Import Base.BytesProofs Ctlog.Model Ctlog.Recompute Ctlog.Spec Ctlog.Inv Ctlog.InvStep Ctlog.Inv2 Ctlog.Inv2Step Ctlog.Mono.
 From Coq Require Import ZifyN ZifyNat ZifyBool.
 Open Scope N_scope.
 
@@ -43,6 +43,37 @@ Proof.
   destruct (chain_comparable _ _ _ _ _ C H0 Hc) as [P|P].
   - exists sl. rewrite (prefix_nth _ _ _ P Hlt). auto.
   - exists sl. rewrite <- (prefix_nth _ _ _ P Hl). auto.
+Qed.
+
+(* C07: a run of cmd/recompute-cache that ends with "ok" leaves a row for every entry below the
+   bound rc_top (all full tiles; everything when the tree has no full tile) of the published tree,
+   so a resubmission of any of them is answered from the cache (resubmission_answered_from_cache)
+   with an index that holds it (ack_names_committed_leaf, which covers recompute events). *)
+Theorem recompute_restores_dedup evs i key x p ls :
+  let w := run evs init in
+  get_inst (w_insts w) i = Some x ->
+  published w = Some p -> hist_leaves (w_lockhist w) p = Some ls ->
+  In (ObsNote "recompute-ok") (snd (step sha w (EvRecompute i key None))) ->
+  exists x', get_inst (w_insts (fst (step sha w (EvRecompute i key None)))) i = Some x' /\
+    forall j sl, N.of_nat j < rc_top (cp_size p) -> nth_error ls j = Some sl ->
+      cache_get (i_cache x') (leaf_ckey sha (sl_leaf sl)) <> None.
+Proof.
+  intros w G Hpub Hh Hobs.
+  pose proof (Inv_reachable sha evs) as (C & _). fold w in C.
+  assert (Hwf : wfcp sha p ls) by (eapply chain_wf; [exact C|apply hist_leaves_in; exact Hh]).
+  destruct Hwf as [Hsz _].
+  unfold Model.step in *. rewrite G in *. unfold step_recompute in *. rewrite Hpub in *.
+  destruct (negb (cp_key p =? key)).
+  { cbn [snd] in Hobs. destruct Hobs as [Hobs|[Hobs|[]]]; discriminate. }
+  rewrite Hh in *.
+  destruct (rc_loop sha _ _ _ _ _ _ _) as [c1 why] eqn:E.
+  cbn [fst snd] in *. destruct Hobs as [Hobs|[Hobs|[]]]; [|discriminate].
+  cbn in Hobs. inversion Hobs; subst why.
+  eexists. split; [cbn [w_insts set_i]; apply get_set_same|].
+  cbn [i_cache set_cache]. intros j sl Hj Hn.
+  eapply rc_loop_all; [|exact E| |exact Hj|exact Hn].
+  - pose proof (rc_top_le (cp_size p)). lia.
+  - lia.
 Qed.
 
 Theorem acks_never_retracted evs more a :
